@@ -957,25 +957,33 @@ func c45NewSystem(t *testing.T) actor.ActorSystem {
 	return sys
 }
 
+func c45StopSystem(sys actor.ActorSystem) {
+	ctx, cancel := context.WithTimeout(context.Background(), 60*time.Second)
+	defer cancel()
+	_ = sys.Stop(ctx)
+}
+
 func TestVerif_C45(t *testing.T) {
 	r := verifrt.Start(t, "C45")
 	defer r.Finish()
 	r.Rule("case = one generated linear pipeline: source in {Of, Range+Map, FromChannel unbuffered/buffered, Unfold}, input length 0..2000 (biased to the demand-window sizes 64/160/224/256/448/512), 1-6 stage groups out of {Map, TryMap (fail-fast error or Resume on one chosen element), Filter, FlatMap (incl. bursts of 230-600 outputs), Batch(n,1h)+Flatten, Batch(n,1h)+Map(hash of the batch: batch boundaries visible), Scan, Map+Deduplicate, Buffer(n,Backpressure), OrderedParallelMap / ParallelMap (parallelism 1/2/4/16, value-derived jitter, optional panic(error))}, sink in {Collect, ForEach, Fold, Chan} with consumer pace {fast, periodic sleep, one long stall}, fusion mode {stateless, none, aggressive}, 1-4 pipelines concurrently on one actor system; oracle = reference interpreter over slices (sequence; multiset from the first ParallelMap on; prefix / sub-multiset + identical error for a failing stage), completion through Done/Err, no delivery after Done; non-trivial = at least 2 stage groups, at least 10 input elements and (a non-empty result or an expected error); distinct by pipeline text and input seed")
 	r.Assume("Batch's maxWait of one hour never fires; the functions given to the stages are deterministic")
-	sys := c45NewSystem(t)
-	defer func() {
-		ctx, cancel := context.WithTimeout(context.Background(), 60*time.Second)
-		defer cancel()
-		_ = sys.Stop(ctx)
-	}()
-
 	if v := os.Getenv("C45_CASE_SEED"); v != "" {
 		seed, _ := strconv.ParseInt(v, 10, 64)
-		for k := 0; k < 50; k++ {
+		reps := 20
+		if r.Batch != 0 {
+			reps = 0
+		}
+		for k := 0; k < reps; k++ {
+			sys := c45NewSystem(t)
 			c := c45GenCase(seed)
 			o := c.run(sys)
 			c.judge(r, o, c.expect())
 			r.Case(c.describe(), true)
+			c45StopSystem(sys)
+			if !o.Done {
+				break
+			}
 		}
 		return
 	}
@@ -988,6 +996,9 @@ func TestVerif_C45(t *testing.T) {
 		if g > n-done {
 			g = n - done
 		}
+		// a fresh actor system per group: actors of finished streams must not
+		// influence later cases
+		sys := c45NewSystem(t)
 		cases := make([]*c45Case, g)
 		outs := make([]c45Outcome, g)
 		var wg sync.WaitGroup
@@ -1000,6 +1011,7 @@ func TestVerif_C45(t *testing.T) {
 			}(i)
 		}
 		wg.Wait()
+		c45StopSystem(sys)
 		for i, c := range cases {
 			e := c.expect()
 			o := outs[i]
